@@ -40,9 +40,13 @@ static int run_case(const std::string& text)
     if (loop)
       e.track_vetoed_activities(&vetoed);
     vf::wf_main_ops(m["ops"]);
-    e.run();
+    if (not loop)
+      e.run();
+    // with the veto loop, the vetoes of the build phase are handled before the first run (Engine::run only looks at the set after a time advance)
     int rounds = 0;
-    while (loop && not vetoed.empty() && rounds++ < 10000) {
+    bool first = loop;
+    while (loop && (first || not vetoed.empty()) && rounds++ < 10000) {
+      first = false;
       std::vector<sg4::Activity*> todo(vetoed.begin(), vetoed.end());
       std::sort(todo.begin(), todo.end(), [](auto* a, auto* b) { return a->get_name() < b->get_name(); });
       vetoed.clear();
